@@ -43,6 +43,25 @@ def _const(F, name):
     return c.get("scalar", c.get("val"))
 
 
+_VIEW = re.compile(r"::(as_ref|as_slice|as_bytes|deref|borrow|as_mut|as_str)$|^std::convert::AsRef::as_ref$|^std::ops::Deref::deref$")
+
+
+def _only_view(v, param):
+    """the value is the named parameter seen through reference-only conversions (as_ref, deref, ..):
+    no call that could compute something else from it (trim, to_lowercase, hash, ..)"""
+    for _ in range(12):
+        if v == ("P", param):
+            return True
+        if v[0] == "F" and v[3] in (0, "0") and v[2] is None:      # newtype field: Secret(pub Vec<u8>)
+            v = v[1]
+            continue
+        if v[0] == "C" and _VIEW.search(v[2]) and len(v[3]) == 1:
+            v = v[3][0]
+            continue
+        return False
+    return False
+
+
 def rule_X1(F, R):
     R.begin("X1", "parameters: PBKDF2-HMAC-SHA256 with 600000 iterations over (salt, secret) from the constructor; ChaCha20-Poly1305 key; ENVELOPE_VERSION = 1, TASK_APP_ID = 1, AAD_LEN = 17; the secret reaches the KDF unmodified")
     want = {ENC + "::PBKDF2_ITERATIONS": "600000", ENC + "::ENVELOPE_VERSION": "1", ENC + "::TASK_APP_ID": "1", ENC + "::AAD_LEN": "17"}
@@ -70,9 +89,9 @@ def rule_X1(F, R):
             R.violation("X1", b["path"], "kdf-algorithm", "the KDF algorithm is %s, documented PBKDF2_HMAC_SHA256" % show(a[0]), w)
         elif not _has(a[1], lambda v: v == ("K", ENC + "::PBKDF2_ITERATIONS")) or _has(a[1], lambda v: v[0] == "B"):
             R.violation("X1", b["path"], "kdf-iterations", "the iteration count passed to the KDF is %s, not PBKDF2_ITERATIONS" % show(a[1]), w)
-        elif not (_has(a[2], lambda v: v == ("P", "salt")) and not _has(a[2], lambda v: v[0] in ("M", "K"))):
+        elif not _only_view(a[2], "salt"):
             R.violation("X1", b["path"], "kdf-salt", "the KDF salt is %s, not the caller's salt" % show(a[2]), w)
-        elif not (_has(a[3], lambda v: v == ("P", "secret")) and not _has(a[3], lambda v: v[0] in ("M", "K"))):
+        elif not _only_view(a[3], "secret"):
             R.violation("X1", b["path"], "kdf-secret", "the KDF secret is %s, not the caller's secret" % show(a[3]), w)
         else:
             R.ok("X1", "pbkdf2::derive(PBKDF2_HMAC_SHA256, PBKDF2_ITERATIONS, salt, secret, key)", w)
